@@ -57,3 +57,12 @@ Definition simple_desc (d : desc) : bool := forallb simple_mt (desc_media_types 
 (* outcome of exercising one operation of a validated API:
    0 the handler ran, 1 answered 500 no consumer registered, 2 panic cannot find a producer, 3 anything else *)
 Definition served_ok (k : nat) : bool := Nat.eqb k 0.
+
+(* ---- the route table ----
+   a well-formed base path is absent or rooted; a well-formed template is a rooted path in normal form: the root, or
+   non-empty slash-separated segments none of which is a single or a double dot (no trailing or doubled slash) *)
+Definition wf_base (b : bytes) : bool := match b with [] => true | c :: _ => Nat.eqb c SL end.
+Definition wf_template (t : bytes) : bool := rooted_normal t.
+(* outcome 4 of exercising an operation: answered 404 or 405, the router holds no route for the declared operation *)
+Definition all_routed (n : nat) (routed : list (nat * bool)) : bool :=
+  list_eqb Nat.eqb (map fst routed) (seq 0 n) && forallb snd routed.
